@@ -1077,7 +1077,16 @@ class ContentDocument(Document):
     if region.get_doc() != self:
       raise ValueError("Region does not belongs to this document")
 
+    replaced = self._regions.get(region.get_id())
+
     self._regions[region.get_id()] = region
+
+    # elements that reference the replaced region now reference the new one
+
+    if replaced is not None and replaced is not region:
+      for e in list(replaced._users): # pylint: disable=W0212
+        if e.get_doc() is self:
+          e.set_region(region)
 
   def remove_region(self, region_id: str):
     '''Removes the region with `id == region_id` from the document and all content elements.'''
